@@ -159,6 +159,7 @@ def c16_fallthrough(ctx):
 
 # ---------------------------------------------------------------- byte-granular stack boundary
 FILL_BODIES = [
+    ('int g(const int[] q) { return q[0] + q[3]; }\n', 'int[] v = [g([a, b, a, b]), 3, 4, 5, 6]; write(v[0] is byte); write(v[1] is byte); write(v[4] is byte);'),
     ('', 'int[] v = [4369, 8738, 13107, (b + 1) * ((b + 2) * ((b + 3) * (b + 4)))]; write(v[0] is byte); write(v[1] is byte); write(v[2] is byte); write(v[3] is byte);'),
     ('int g(int p, int q, int r) { return p + q * r; }\n', 'byte[] v = [\'a\', \'b\', \'c\', ((g(b, 2, 3) + 1) * (b + g(1, b, 2))) is byte]; write(v);'),
     ('', 'byte[] arr = [\'w\', \'x\', \'y\', \'z\']; byte c = \'a\'; write(arr[0]); write(arr[1]); write(arr[2]); write(arr[3]); write(c);'),
